@@ -80,8 +80,11 @@ func vC07Receiver(legacy bool) {
 	case 1: // hostile file path (manifest and FileBegin agree, as a hostile sender would make them)
 		fileItem.RelPath = vString("filePath", 1+vChoice("fileLen", 4))
 		m.Items = []manifest.FileItem{fileItem}
-	default: // hostile item id (names the resume metadata file)
-		fileItem.ID = vString("itemID", 1+vChoice("idLen", 4))
+	default: // hostile item id (names the resume metadata file), for a data file and for a zero-length file
+		fileItem.ID = vString("itemID", []int{1, 2, 3, 4, 7}[vChoice("idLen", 5)]) // 7: shortest id that climbs two levels
+		if vBool("emptyFile") {
+			fileItem.Size = 0
+		}
 		m.Items = []manifest.FileItem{fileItem}
 	}
 	control := &vMemStream{buf: vControlBytes(m)}
@@ -452,4 +455,59 @@ func H_C03_names() {
 		vCover("C03 legal name")
 		vAssert(validateRelPath(p) == nil, "a legal relative path is accepted")
 	}
+}
+
+// H_C03_twofiles: two files share one data stream. File A resumes with chunk 0 already there; the
+// sender sends A's missing chunk, then - as the verification tail does - chunk 0 again, which can
+// arrive after A is complete and after A's FileEnd was handled; file B's only chunk follows on the same
+// stream. Under every schedule both files complete and the call succeeds.
+func H_C03_twofiles() {
+	for iter := 0; iter < vRepeat(3); iter++ {
+		vResetInputs()
+		vC03TwoFilesOnce()
+	}
+}
+
+func vC03TwoFilesOnce() {
+	srcA, srcB := vBytes("srcA", 8), vBytes("srcB", 4)
+	a := manifest.FileItem{RelPath: "a", Size: 8, ID: "ida"}
+	b := manifest.FileItem{RelPath: "b", Size: 4, ID: "idb"}
+	m := manifest.Manifest{Items: []manifest.FileItem{a, b}, TotalBytes: 12, FileCount: 2}
+	kA, kB := fileKeyForItem(a), fileKeyForItem(b)
+	out := vTempDir() + "/out"
+	old := append(append([]byte{}, srcA[:4]...), 0, 0, 0, 0)
+	vTempFile("out/a", old)
+	sc := &Sidecar{Path: SidecarPath(out, "", sidecarIdentifier(a)), FileID: a.ID, FileSize: 8, ChunkSize: 4, TotalChunks: 2, bitmap: &Bitmap{bits: 2, data: []byte{1}}, dirty: true}
+	vAssume(sc.Flush() == nil)
+	control := &vMemStream{buf: vControlBytes(m)}
+	_ = writeDataStreams(control, DataStreams{Count: 1})
+	_ = writeFileBegin(control, FileBegin{RelPath: "a", FileSize: 8, ChunkSize: 4, StreamID: kA, HashAlg: HashAlgCRC32C})
+	_ = writeFileBegin(control, FileBegin{RelPath: "b", FileSize: 4, ChunkSize: 4, StreamID: kB, HashAlg: HashAlgCRC32C})
+	control.gateAt = len(control.buf) // natively: A's FileEnd reaches the receiver 150 ms later
+	control.gateDelay = 150
+	_ = writeFileEnd(control, FileEnd{StreamID: kA})
+	_ = writeFileEnd(control, FileEnd{StreamID: kB})
+	_ = writeControlEnd(control)
+	data := &vMemStream{}
+	put := func(key uint64, idx int, payload []byte) {
+		hdr := make([]byte, dataChunkHeaderLen)
+		binary.BigEndian.PutUint64(hdr[0:8], key)
+		binary.BigEndian.PutUint32(hdr[8:12], uint32(idx))
+		binary.BigEndian.PutUint32(hdr[12:16], uint32(len(payload)))
+		binary.BigEndian.PutUint32(hdr[16:20], crc32.Checksum(payload, crc32cTable))
+		data.buf = append(append(data.buf, hdr...), payload...)
+	}
+	put(kA, 1, srcA[4:8])
+	data.gateAt = len(data.buf) // natively: the duplicate arrives 300 ms after A's last missing chunk
+	data.gateDelay = 300
+	put(kA, 0, srcA[0:4]) // duplicate of a chunk the receiver already has
+	put(kB, 0, srcB)
+	conn := &vScriptConn{streams: []Stream{control, data}}
+	_, err := RecvManifestMultiStream(vContext("ctx", false), conn, out, Options{NoRootDir: true, Resume: true})
+	vAssert(err == nil, "a resumed transfer of two files over one stream succeeds")
+	gotA, e1 := os.ReadFile(out + "/a")
+	gotB, e2 := os.ReadFile(out + "/b")
+	vAssert(e1 == nil && e2 == nil && len(gotA) == 8 && len(gotB) == 4, "both files exist with their announced lengths")
+	vAssert(vBytesEq(gotA, srcA) && vBytesEq(gotB, srcB), "both files equal their sources")
+	vCover("C03 two files complete")
 }
